@@ -52,7 +52,8 @@ SPEC = {
     "tie": ["props/C17_tieA.vo"],
     "gen_items": ["src/**:pub fn table"],
     "tieA_required": True,
-    "drivers": [{"driver": "adversary", "profiles": ["debug", "release"]}],
+    "drivers": [{"driver": "adversary", "profiles": ["debug", "release"]}, {"driver": "codec", "profiles": ["debug"]}],
+    "case_libs": ["theories/CasesCodec.vo"],
     "custom": compile_corpus,
     "exhaustive": True,
     "rule": ("(a) every `pub fn` of /repo/src (test modules excluded) with its `unsafe` qualifier, `# Safety` doc section and `_unchecked` suffix, re-read on every run (complete enumeration of a "
